@@ -1,6 +1,7 @@
 package main
 
 import (
+	"go/token"
 	"fmt"
 	"go/ast"
 	"go/types"
@@ -373,8 +374,13 @@ func generate(p *Prog, prop string, cover bool) *RunResult {
 			}
 			for _, mn := range sortedKeys(ic.Methods) {
 				mc := ic.Methods[mn]
+				depRef := false
 				if prop != "" && !contains(contractTags(mc), prop) {
-					continue
+					p.depClosure(prop)
+					if !p.depIface[prop][ik+"."+mn] {
+						continue
+					}
+					depRef = true // the property's proofs call this interface method: its implementations are verified with them
 				}
 				sel := p.SSA.MethodSets.MethodSet(impl).Lookup(sp.Pkg, mn)
 				if sel == nil {
@@ -393,7 +399,7 @@ func generate(p *Prog, prop string, cover bool) *RunResult {
 				dc.PkgPath = fn.Pkg.Pkg.Path()
 				var e *Exec
 				if own := p.contractFor(fn); own != nil {
-					e = verifyRefinement(p, fn, own, &dc)
+					e = guarded(p, fn, &dc, func() *Exec { return verifyRefinement(p, fn, own, &dc) })
 				} else {
 					e = verifyFunc(p, fn, &dc, cover)
 				}
@@ -405,9 +411,16 @@ func generate(p *Prog, prop string, cover bool) *RunResult {
 				rr.Execs = append(rr.Execs, e)
 				rr.Functions = append(rr.Functions, e.name)
 				all := contractTags(&dc)
+				if depRef {
+					rr.Functions[len(rr.Functions)-1] = e.name + " (dependency of " + prop + ")"
+				}
 				for _, o := range e.obls {
 					if len(o.Props) == 0 {
 						o.Props = all
+					}
+					if depRef && !contains(o.Props, prop) && o.Kind != "discipline" && o.Kind != "cover" {
+						o.Props = append(append([]string{}, o.Props...), prop)
+						o.Dependency = true
 					}
 					rr.Obls = append(rr.Obls, o)
 				}
@@ -428,7 +441,7 @@ func generate(p *Prog, prop string, cover bool) *RunResult {
 		if prop != "" && !contains(lm.Tags, prop) {
 			continue
 		}
-		e := verifyLemma(p, lm)
+		e := guardedLemma(p, lm)
 		rr.Execs = append(rr.Execs, e)
 		rr.Obls = append(rr.Obls, e.obls...)
 	}
@@ -654,6 +667,10 @@ func (p *Prog) depClosure(prop string) map[*ssa.Function]bool {
 	}
 	res := map[*ssa.Function]bool{}
 	p.depCache[prop] = res
+	if p.depIface == nil {
+		p.depIface = map[string]map[string]bool{}
+	}
+	p.depIface[prop] = map[string]bool{}
 	var work []*ssa.Function
 	for _, k := range sortedKeys(p.CS.Funcs) {
 		fc := p.CS.Funcs[k]
@@ -697,14 +714,31 @@ func (p *Prog) depClosure(prop string) map[*ssa.Function]bool {
 					if !ok {
 						continue
 					}
+					if n, isNamed := types.Unalias(c.Value.Type()).(*types.Named); isNamed && n.Obj().Pkg() != nil {
+						// an interface with a (non-assumed) contract in the module: its implementations
+						// are verified by refinement; remember that this method is needed
+						p.depIface[prop][n.Obj().Pkg().Path()+"::"+n.Obj().Name()+"."+c.Method.Name()] = true
+					}
 					for _, impl := range p.implementers(it) {
 						sel := p.SSA.MethodSets.MethodSet(impl).Lookup(c.Method.Pkg(), c.Method.Name())
 						if sel == nil {
 							sel = p.SSA.MethodSets.MethodSet(impl).Lookup(nil, c.Method.Name())
 						}
+						// a method with a value receiver reached through *T is a synthetic wrapper: take T's own method
+						if pt, isPtr := impl.(*types.Pointer); isPtr {
+							if s2 := p.SSA.MethodSets.MethodSet(pt.Elem()).Lookup(c.Method.Pkg(), c.Method.Name()); s2 != nil {
+								sel = s2
+							} else if s2 := p.SSA.MethodSets.MethodSet(pt.Elem()).Lookup(nil, c.Method.Name()); s2 != nil {
+								sel = s2
+							}
+						}
 						if sel != nil {
-							if m := p.SSA.MethodValue(sel); m != nil && m.Synthetic == "" {
-								add(m)
+							if m := p.SSA.MethodValue(sel); m != nil && m.Synthetic == "" && inModule(m) {
+								if p.contractFor(m) != nil {
+									add(m)
+								} else if len(m.Blocks) > 0 {
+									scan(m, depth+1) // verified by body against the interface contract
+								}
 							}
 						}
 					}
@@ -728,4 +762,42 @@ func (p *Prog) depClosure(prop string) map[*ssa.Function]bool {
 		scan(fn, 0)
 	}
 	return res
+}
+
+// guarded runs a verification step; an abort inside it (a contract that can no longer
+// be interpreted against the code) becomes the failed obligation F#contract:binding.
+func guarded(p *Prog, fn *ssa.Function, fc *FuncContract, run func() *Exec) (e *Exec) {
+	verifying = true
+	defer func() {
+		verifying = false
+		if r := recover(); r != nil {
+			msg := fmt.Sprint(r)
+			if ab, ok := r.(engineAbort); ok {
+				msg = ab.msg
+			}
+			e = newExec(p, dispName(fn))
+			e.fn, e.fc = fn, fc
+			st := &State{reach: "true"}
+			o := e.obligeNoAssume(st, "contract:binding", "binding", contractTags(fc), "false", "the contract of this function can no longer be interpreted against its code: "+msg, fn.Pos())
+			o.Pos = posOf(p, fn.Pos())
+		}
+	}()
+	return run()
+}
+
+func guardedLemma(p *Prog, lm *Lemma) (e *Exec) {
+	verifying = true
+	defer func() {
+		verifying = false
+		if r := recover(); r != nil {
+			msg := fmt.Sprint(r)
+			if ab, ok := r.(engineAbort); ok {
+				msg = ab.msg
+			}
+			e = newExec(p, "lemma "+lm.Name)
+			st := &State{reach: "true"}
+			e.obligeNoAssume(st, "lemma:binding", "binding", lm.Tags, "false", "the lemma can no longer be interpreted: "+msg, token.NoPos)
+		}
+	}()
+	return verifyLemma(p, lm)
 }
